@@ -458,7 +458,7 @@ pub fn main(args: Args) -> i32 {
             }
         });
     }
-    let opts = gen::Opts { depth: 2, max_programs: u64::MAX, multi_template: false, loop_controls: true };
+    let opts = gen::Opts { depth: 2, max_programs: u64::MAX, multi_template: false, loop_controls: true, extra_leaves: true };
     let size = gen::Gen::new(opts).size();
     let stride = args.tier.pick(5u64, 1u64);
     let n_prog = (size + stride - 1) / stride;
